@@ -432,6 +432,129 @@ def r7_9(ctx):
     ctx.floor(n, 3, "definitions of widths in _calculate_column_widths")
 
 
+def r7_15(ctx, rule_id="R7.15", suffix=""):
+    ctx.rule(rule_id, "every width vector is put to the budget test: in Table._calculate_column_widths each definition or element store of `widths` that is not itself inside the reduction stage reaches a `return` only through the test that compares the total with max_width (`table_width > max_width`) - ratio_distribute with per-column minimums can hand out more than it was given, and columns enter at their natural width, so a path that returns before the test hands _render a table wider than the console" + suffix)
+    from ..yieldpaths import canon_test
+    f = ctx.repo.fn("table:Table._calculate_column_widths")
+    m = f.module
+    g = cfgmod.build(f.node)
+    mw = f.params[2] if len(f.params) > 2 else "max_width"
+    tests = set()
+    for nd in g.nodes:
+        if nd.id in g.reachable and nd.kind == "test" and nd.expr is not None:
+            for a, tv in canon_test(nd.expr, True):
+                t = a.replace(" ", "")
+                if t in (f"table_width>{mw}", f"sum(widths)>{mw}", f"{mw}<table_width", f"{mw}<sum(widths)") or (tv is False and t in (f"table_width<={mw}", f"sum(widths)<={mw}")):
+                    tests.add(nd.id)
+            if not tests or nd.id not in tests:
+                for a, tv in canon_test(nd.expr, False):
+                    t = a.replace(" ", "")
+                    if t in (f"table_width<={mw}", f"sum(widths)<={mw}", f"{mw}>=table_width"):
+                        tests.add(nd.id)
+    if not tests:
+        raise AnalysisError("Table._calculate_column_widths: no test of the total against max_width found; the reduction stage is written in a form this rule does not read")
+    dom = g.dominators()
+    rets = {nd.id for nd in g.nodes if nd.id in g.reachable and nd.kind == "stmt" and isinstance(nd.stmt, ast.Return) and nd.stmt.value is not None and not (isinstance(nd.stmt.value, ast.List) and not nd.stmt.value.elts)}
+    n = 0
+    for nd in g.nodes:
+        if nd.id not in g.reachable or nd.kind != "stmt" or not isinstance(nd.stmt, (ast.Assign, ast.AugAssign, ast.AnnAssign)):
+            continue
+        tgts = nd.stmt.targets if isinstance(nd.stmt, ast.Assign) else [nd.stmt.target]
+        if not any(isinstance((t.value if isinstance(t, ast.Subscript) else t), ast.Name) and (t.value if isinstance(t, ast.Subscript) else t).id == "widths" for t in tgts):
+            continue
+        if dom.get(nd.id, set()) & tests:
+            continue  # inside / after the reduction stage (the final padding target is R7.8's subject)
+        n += 1
+        w = g.must_pass(nd.id, tests, rets)
+        ctx.check(w is None, f.fq, short(nd.stmt), f"{m.relpath}:{nd.lineno}", "these widths reach a return only through the budget test",
+                  f"after `{short(nd.stmt)}` a path returns the widths without comparing their total with {mw}: the collapse / reduce stage is skipped and the table is rendered wider than the width it was given (Table(expand=True) with ratio columns 10:1 at width 30, or any fixed column holding text wider than the console)",
+                  g.describe_path(w) if w else None)
+    ctx.floor(n, 1, "definitions of widths before the budget test")
+
+
+def r7_16(ctx):
+    ctx.rule("R7.16", "a share is never below its slot's minimum: in ratio_distribute every value appended to the result on a path with ratio left (`total_ratio > 0`) is max(minimum, <share>), the minimum itself, or a share the path has compared and found not below the minimum. The caller passes `width + padding` of each flexible column as minimum; a share below it leaves a column with no room for its content while the shares still sum to the total, so nothing downstream repairs it and the column's text vanishes")
+    from ..yieldpaths import Enumerator, Unsupported, resolve, canon_test
+    f = ctx.repo.fn("_ratio:ratio_distribute")
+    m = f.module
+    loops = [x for x in walk_local(f.node) if isinstance(x, ast.For) and isinstance(x.target, ast.Tuple) and len(x.target.elts) == 2 and isinstance(x.iter, ast.Call) and norm(x.iter.func) == "zip"]
+    if len(loops) != 1:
+        raise AnalysisError("ratio_distribute: the loop over zip(ratios, minimums) was not found")
+    lp = loops[0]
+    mn = norm(lp.target.elts[1])
+    try:
+        bodies = Enumerator(f.node).block(lp.body)
+    except Unsupported as u:
+        raise AnalysisError(f"ratio_distribute: {u}")
+    n = 0
+    for ev, _t in bodies:
+        ev = list(resolve(tuple(ev)))
+        facts = {}
+        for e in ev:
+            if e[0] == "cond":
+                for a, v in canon_test(ast.parse(e[1], mode="eval").body, e[2]):
+                    facts[a.replace(" ", "")] = v
+        if facts.get("total_ratio>0") is not True and facts.get("total_ratio<=0") is not False:
+            continue
+        for e in ev:
+            if e[0] != "do" or ".append(" not in e[1]:
+                continue
+            c = ast.parse(e[1], mode="eval").body
+            if not (isinstance(c, ast.Call) and len(c.args) == 1):
+                continue
+            n += 1
+            v = c.args[0]
+            vt = norm(v).replace(" ", "")
+            ok = (isinstance(v, ast.Call) and norm(v.func) == "max" and any(norm(a) == mn for a in v.args)) or norm(v) == mn
+            ok = ok or facts.get(f"{vt}<{mn}") is False or facts.get(f"{vt}>={mn}") is True or facts.get(f"{mn}>{vt}") is False or facts.get(f"{mn}<={vt}") is True
+            conds = " & ".join(f"{'' if tv else 'not '}{a}" for a, tv in facts.items())
+            ctx.check(ok, f.fq, f"append({norm(v)[:70]}) [{conds[:80]}]", f"{m.relpath}:{lp.lineno}", f"the share is at least `{mn}` on path [{conds[:60]}]",
+                      f"on the path [{conds}] ratio_distribute appends `{norm(v)}`, which can be smaller than the slot's `{mn}`: a flexible column whose share is below its padding + 1 gets no room for its content (Table(expand=True) with ratio columns 1:6:6 at width 28 loses the first column's text)")
+    ctx.floor(n, 1, "shares appended by ratio_distribute with ratio left")
+
+
+def r7_17(ctx):
+    ctx.rule("R7.17", "no line of the table is empty: in Table._render a new line always closes a line that was emitted before it - walking backwards from every `yield new_line` each path meets an emission of line content (a box row, the cells of a row) before it meets another new line or the start of the function, and new lines are never emitted in bulk (`[new_line] * n`): a bare new line is a zero-width row in what must be a rectangle")
+    f = ctx.repo.fn("table:Table._render")
+    m = f.module
+    g = cfgmod.build(f.node)
+    nl_names = {"new_line"}
+    for x in walk_local(f.node):
+        if isinstance(x, ast.Assign) and isinstance(x.targets[0], ast.Name) and isinstance(x.value, ast.Call) and (norm(x.value.func).endswith(".line") or (norm(x.value.func) in ("Segment", "_Segment") and x.value.args and isinstance(x.value.args[0], ast.Constant) and x.value.args[0].value == "\n")):
+            nl_names.add(x.targets[0].id)
+    NL, CONTENT = set(), set()
+    n = 0
+    for nd in g.nodes:
+        if nd.id not in g.reachable or nd.kind != "stmt" or not isinstance(nd.stmt, ast.Expr) or not isinstance(nd.stmt.value, (ast.Yield, ast.YieldFrom)):
+            continue
+        v = nd.stmt.value.value
+        if isinstance(nd.stmt.value, ast.Yield) and isinstance(v, ast.Name) and v.id in nl_names:
+            NL.add(nd.id)
+        elif any(isinstance(y, ast.Name) and y.id in nl_names for y in ast.walk(v)) and isinstance(nd.stmt.value, ast.YieldFrom):
+            n += 1
+            ctx.violation(f.fq, short(nd.stmt), f"{m.relpath}:{nd.lineno}", f"`{short(nd.stmt)}` emits new lines in bulk: the lines between them are empty, zero cells wide, inside a table whose lines must all have the table's width")
+        else:
+            CONTENT.add(nd.id)
+    if not NL:
+        raise AnalysisError("Table._render: no `yield new_line` found; line ends are written in a form this rule does not read")
+    # a loop over the cells of a row whose body emits content runs at least once: a row exists only if there is a column
+    # (rows are zip(*column cells)), so its exit edge counts as content
+    for lp in walk_local(f.node):
+        if isinstance(lp, ast.For) and not (isinstance(lp.iter, ast.Call) and norm(lp.iter.func) == "range"):
+            inner = {i for st in lp.body for x in ast.walk(st) if isinstance(x, ast.stmt) for i in g.nodes_of(x)}
+            if inner & CONTENT and not (inner & NL):
+                CONTENT |= set(g.nodes_of(lp)) - inner
+    for nl in sorted(NL):
+        n += 1
+        nd = g.nodes[nl]
+        starts = [x for x in g.pred[nl] if x not in CONTENT]
+        back = g.reach(starts, avoid=CONTENT, forward=False) if starts else set()
+        bad = [x for x in back if x in NL or x == g.entry]
+        ctx.check(not bad, f.fq, short(nd.stmt), f"{m.relpath}:{nd.lineno}", "this new line closes a line with content",
+                  f"`{short(nd.stmt)}` at line {nd.lineno} can follow {'another new line (line ' + str(g.nodes[bad[0]].lineno) + ')' if bad and bad[0] != g.entry else 'the start of the table'} with no content in between: an empty line in the table body")
+    ctx.floor(n, 3, "line ends in Table._render")
+
+
 def r7_10(ctx):
     from .common import memo_rule
     memo_rule(ctx, "R7.10", ["table", "_ratio", "box"], 0)
@@ -509,4 +632,4 @@ def r7_14(ctx):
     borrow(ctx, r13_6, "R13.6", "R7.14", " [the folding of a cell depends on the position in the line: caches of the cell helpers must cover every argument]")
 
 
-RULES = [r7_1, r7_2, r7_3, r7_4, r7_5, r7_6, r7_7, r7_8, r7_9, r7_10, r7_11, r7_12, r7_13, r7_14]
+RULES = [r7_1, r7_2, r7_3, r7_4, r7_5, r7_6, r7_7, r7_8, r7_9, r7_10, r7_11, r7_12, r7_13, r7_14, r7_15, r7_16, r7_17]
